@@ -113,6 +113,7 @@ class Machine:
         self.loop_hot = collections.Counter()
         self.unsupported = []
         self.tolerant = False
+        self.fixed_named = {}
         self.race = None
         self.max_recursion = 4
         self.do_restrict = False   # guard-context simplification of loaded values (enabled in window passes)
@@ -713,7 +714,7 @@ class Machine:
                 # the cut removes every later iteration from THIS pass: that matters whenever the cut point lies before
                 # the end of the current window (also when it lies before its start: later iterations may be inside)
                 kp.append(k); eg = g if self.win is None else And(g, self.upto(tuple(kp))); kp.pop()
-                self.unwound.append((eg, '%s:%s (U=%d, tid %d)' % (fr.f.name[:80], L.header, U, self.cur.tid)))
+                self.unwound.append((eg, '%s:%s (U=%d, tid %d)%s' % (fr.f.name[:80], L.header, U, self.cur.tid, '' if ksym > U else ' [iteration cap %d]' % k)))
                 fr.inc.pop(L.header)
                 self.stats['unwound'] += 1
                 break
@@ -946,7 +947,10 @@ class Machine:
         v = self.nondets.get(key)
         if v is None:
             self.fresh += 1
-            v = var('%s_%d' % (prefix, self.fresh), w)
+            import hashlib
+            name = '%s_%s' % (prefix, hashlib.md5(repr(key).encode()).hexdigest()[:10])     # stable across runs (replay)
+            fx = self.fixed_named.get(name)
+            v = (fx & mask(w)) if fx is not None else var(name, w)
             self.nondets[key] = v
         return v
 
